@@ -223,34 +223,70 @@ fn conforms(s: Sch, v: &Value) -> bool {
     }
 }
 
-/// Value equality.  Ids are compared at a universally quantified index instead of by memcmp (a
-/// 33-iteration loop would force a large global unwind bound).
+/// Value equality written out per type of the table (specification side).  The derived
+/// `Value == Value` is NOT used: on values read back from heap nodes CBMC explores every variant
+/// pair including the recursive struct/fact comparisons (measured: 12 GB).  Ids, bytes and text
+/// are compared at a universally quantified index instead of by memcmp.
 fn same_value(s: Sch, x: &Value, y: &Value) -> bool {
-    if s == Sch::Id {
+    fn same_int(x: &Value, y: &Value) -> bool {
         match (x, y) {
-            (Value::Id(p), Value::Id(q)) => {
-                let w: usize = kani::any();
-                kani::assume(w < 32);
-                p.as_bytes()[w] == q.as_bytes()[w]
-            }
+            (Value::Int(p), Value::Int(q)) => *p == *q,
             _ => false,
         }
-    } else {
-        x == y
+    }
+    fn same_bool(x: &Value, y: &Value) -> bool {
+        match (x, y) {
+            (Value::Bool(p), Value::Bool(q)) => *p == *q,
+            _ => false,
+        }
+    }
+    fn same_bytes(p: &[u8], q: &[u8]) -> bool {
+        let w: usize = kani::any();
+        p.len() == q.len() && (w >= p.len() || p[w] == q[w])
+    }
+    match (s, x, y) {
+        (Sch::Int | Sch::IntBool, _, _) => same_int(x, y),
+        (Sch::Bool, _, _) => same_bool(x, y),
+        (Sch::OptInt, Value::Option(None), Value::Option(None)) => true,
+        (Sch::OptInt, Value::Option(Some(p)), Value::Option(Some(q))) => same_int(p, q),
+        (Sch::Enum, Value::Enum(n, p), Value::Enum(m, q)) => *n == "E" && *m == "E" && *p == *q,
+        (Sch::Id, Value::Id(p), Value::Id(q)) => same_bytes(p.as_bytes(), q.as_bytes()),
+        (Sch::Nested, Value::Struct(p), Value::Struct(q)) => {
+            p.name == "T"
+                && q.name == "T"
+                && p.fields.len() == 1
+                && q.fields.len() == 1
+                && match (p.fields.get("x"), q.fields.get("x")) {
+                    (Some(a), Some(b)) => same_int(a, b),
+                    _ => false,
+                }
+        }
+        (Sch::Res, Value::Result(Ok(p)), Value::Result(Ok(q))) => same_int(p, q),
+        (Sch::Res, Value::Result(Err(p)), Value::Result(Err(q))) => same_bool(p, q),
+        (Sch::Bytes, Value::Bytes(p), Value::Bytes(q)) => same_bytes(p, q),
+        (Sch::Str, Value::String(p), Value::String(q)) => {
+            same_bytes(p.as_str().as_bytes(), q.as_str().as_bytes())
+        }
+        _ => false,
     }
 }
 
 fn same_struct(s: Sch, x: &Struct, y: &Struct) -> bool {
-    if s == Sch::Id {
-        match (x.fields.get("a"), y.fields.get("a")) {
-            (Some(p), Some(q)) => {
-                x.name == y.name && x.fields.len() == 1 && y.fields.len() == 1 && same_value(s, p, q)
-            }
+    let want = if s == Sch::IntBool { 2 } else { 1 };
+    let head = x.name == "S" && y.name == "S" && x.fields.len() == want && y.fields.len() == want;
+    let a = match (x.fields.get("a"), y.fields.get("a")) {
+        (Some(p), Some(q)) => same_value(s, p, q),
+        _ => false,
+    };
+    let b = if s == Sch::IntBool {
+        match (x.fields.get("b"), y.fields.get("b")) {
+            (Some(Value::Bool(p)), Some(Value::Bool(q))) => *p == *q,
             _ => false,
         }
     } else {
-        x == y
-    }
+        true
+    };
+    head && a && b
 }
 
 fn struct_conforms(s: Sch, d: &Struct) -> bool {
